@@ -62,7 +62,7 @@ package datatypes
 
 //@ func (*WiredDatatype).NeedPush
 //@   mode wrap
-//@   props C05
+//@   props C05 C18
 //@   requires wiredWF(its) && its.opID != nil
 //@   ensures result == (its.checkPoint.Cseq < its.opID.Seq)
 //@   modifies nothing
@@ -81,7 +81,7 @@ package datatypes
 // (what the code does; the property-level statement is the C07 lemma).
 //@ func (*WiredDatatype).excludeDuplicatedOperations
 //@   mode wrap
-//@   props C07 C05
+//@   props C07 C05 C08
 //@   requires wiredWF(its) && ppp != nil && ppp.CheckPoint != nil
 //@   replay-input cp_sseq = its.checkPoint.Sseq
 //@   replay-input cp_cseq = its.checkPoint.Cseq
